@@ -143,6 +143,8 @@ def run(tier, seed, rng):
                             a, g = sd['layers'][names[i]]['A'], sd['layers'][names[i]]['G']
                             if not (torch.equal(a, held[src][i]['A'].cpu()) and torch.equal(g, held[src][i]['G'].cpu())):
                                 probs.append(f'rank {r}: saved factors of {names[i]} are not those held by its inverse worker (rank {src})')
+                            elif a.dtype != held[src][i]['A'].dtype or g.dtype != held[src][i]['G'].dtype:
+                                probs.append(f'rank {r}: saved factors of {names[i]} have dtype {a.dtype}/{g.dtype}, the inverse worker holds {held[src][i]["A"].dtype}/{held[src][i]["G"].dtype}')
                 else:
                     fdir = cfg['factor_checkpoint_dir']
                     files = sorted(os.listdir(fdir)) if os.path.isdir(fdir) else []
@@ -152,7 +154,8 @@ def run(tier, seed, rng):
                         for i, tok in m_saved:
                             src = tok // 1000
                             sdl = torch.load(os.path.join(fdir, names[i]))
-                            if not (torch.equal(sdl['A'], held[src][i]['A']) and torch.equal(sdl['G'], held[src][i]['G'])):
+                            if not (torch.equal(sdl['A'], held[src][i]['A']) and torch.equal(sdl['G'], held[src][i]['G'])
+                                    and sdl['A'].dtype == held[src][i]['A'].dtype and sdl['G'].dtype == held[src][i]['G'].dtype):
                                 probs.append(f'directory mode: file {names[i]} does not contain the factors of its inverse worker (rank {src})')
                 # --- after load into fresh objects ---
                 after = [w.results[r][iload]['extra'] for r in range(W)]
@@ -164,7 +167,8 @@ def run(tier, seed, rng):
                             diffs.append(f'rank {r} layer {i}: holds factors after load = {has}, model says {i in want}')
                         elif has:
                             src = want[i] // 1000
-                            if not (torch.equal(after[r][i]['A'], held[src][i]['A']) and torch.equal(after[r][i]['G'], held[src][i]['G'])):
+                            if not (torch.equal(after[r][i]['A'], held[src][i]['A']) and torch.equal(after[r][i]['G'], held[src][i]['G'])
+                                    and after[r][i]['A'].dtype == held[src][i]['A'].dtype and after[r][i]['G'].dtype == held[src][i]['G'].dtype):
                                 probs.append(f'rank {r} layer {i}: restored factors differ from the saved ones')
                         if after[r][i]['sod'] != (i in m_recomp[r]):
                             diffs.append(f'rank {r} layer {i}: second-order data after load = {after[r][i]["sod"]}, model says {i in m_recomp[r]}')
